@@ -130,6 +130,26 @@ Theorem C18_generator_step : forall (exc : Type) (cfail must_commit : exc) ws e 
 Proof. exact gstep_writes. Qed.
 Print Assumptions C18_generator_step.
 
+(* THE generator property: a resumption that ends without an exception (the generator suspends again, or finishes) has committed
+   every write it made - flushed or not; so a generator is never suspended with an open transaction that something else on the
+   thread could roll back, and "finished normally but the changes are gone" cannot happen *)
+Theorem C18_generator_no_exception_all_committed : forall (exc : Type) (cfail must_commit : exc) ops e x,
+  depth x = 0 -> pend x = [] ->
+  let r := ginteract exc cfail must_commit (ops, e) x in
+  (snd r = None \/ snd r = Some Ok) ->
+  comm (fst r) = comm x ++ gwrites ops.
+Proof. exact gstep_no_exception_all_committed. Qed.
+Print Assumptions C18_generator_no_exception_all_committed.
+
+(* "dirty" is the code's predicate `cache.modified or cache.in_transaction`: writes that were flushed (flush() or a query's
+   auto-flush) keep the transaction open, suspending is refused and they are rolled back *)
+Theorem C18_generator_flushed_then_yield : forall (exc : Type) (cfail must_commit : exc) ws x,
+  depth x = 0 -> pend x = [] -> ws <> [] -> existsb snd ws = false ->
+  let r := ginteract exc cfail must_commit (wops ws ++ [GFlush], GYield) x in
+  comm (fst r) = comm x /\ snd r = Some (Raise must_commit) /\ pend (fst r) = [].
+Proof. exact gstep_flushed_then_yield. Qed.
+Print Assumptions C18_generator_flushed_then_yield.
+
 Theorem C18_generator_manual_commit : forall (exc : Type) (cfail must_commit : exc) ws x,
   depth x = 0 -> pend x = [] -> existsb snd ws = false ->
   let r := ginteract exc cfail must_commit (wops ws ++ [GCommit], GYield) x in
